@@ -58,15 +58,15 @@ Outcome(c) ==
         converted |-> Converts(c) /\ RhsUnitOf(c) # PU(c.lu)]
 
 \* unary / scalar-argument operators
-UnOps == {"neg", "pow2", "pow2nd", "pow2q", "pow2s", "pow3a", "powdim", "raddnd", "rsubnd", "rltnd", "pow3", "pow0", "powm1", "powm2", "sqrt", "rmul2", "rmulf", "rdiv2", "rdivf", "rdivnd", "rmulnd", "invert"}
+UnOps == {"neg", "pow2", "pow2f", "powm1f", "pow2nd", "pow2q", "pow2s", "pow3a", "powdim", "raddnd", "rsubnd", "rltnd", "pow3", "pow0", "powm1", "powm2", "sqrt", "rmul2", "rmulf", "rdiv2", "rdivf", "rdivnd", "rmulnd", "invert"}
 UnOutcome(op, i) ==
   LET u == PU(i) IN
   CASE op = "neg" -> [raises |-> FALSE, unit |-> Sparse(u), bool |-> FALSE]
-    [] op \in {"pow2", "pow2nd", "pow2q", "pow2s"} -> [raises |-> FALSE, unit |-> Sparse(UPow(u, 2)), bool |-> FALSE]       \* pow2nd: the exponent is a 0-d ndarray, pow2q: a dimensionless pint Quantity, pow2s: the Array 0.02 m/cm (a scaled dimensionless unit: the number 2)
+    [] op \in {"pow2", "pow2f", "pow2nd", "pow2q", "pow2s"} -> [raises |-> FALSE, unit |-> Sparse(UPow(u, 2)), bool |-> FALSE]       \* pow2nd: the exponent is a 0-d ndarray, pow2q: a dimensionless pint Quantity, pow2s: the Array 0.02 m/cm (a scaled dimensionless unit: the number 2)
     [] op = "powdim" -> [raises |-> TRUE, why |-> "exponent carries a dimension"]                               \* exponent = Array in s
     [] op \in {"pow3", "pow3a"} -> [raises |-> FALSE, unit |-> Sparse(UPow(u, 3)), bool |-> FALSE]
     [] op = "pow0" -> [raises |-> FALSE, unit |-> Sparse(Unit0), bool |-> FALSE]
-    [] op = "powm1" -> [raises |-> FALSE, unit |-> Sparse(UPow(u, -1)), bool |-> FALSE]
+    [] op \in {"powm1", "powm1f"} -> [raises |-> FALSE, unit |-> Sparse(UPow(u, -1)), bool |-> FALSE]
     [] op = "powm2" -> [raises |-> FALSE, unit |-> Sparse(UPow(u, -2)), bool |-> FALSE]
     [] op = "sqrt" -> IF URootOk(u, 2) THEN [raises |-> FALSE, unit |-> Sparse(URoot(u, 2)), bool |-> FALSE] ELSE [raises |-> FALSE, unit |-> <<"fractional">>, bool |-> FALSE]
     [] op \in {"rmul2", "rmulf", "rmulnd"} -> [raises |-> FALSE, unit |-> Sparse(u), bool |-> FALSE]
@@ -86,7 +86,7 @@ ToOutcome(i, j) ==
 \* ---- numpy catalogue (C10)
 Keep1 == {"sum", "mean", "amin", "amax", "min", "max", "abs", "absolute", "fabs", "negative", "positive", "median", "std", "cumsum", "sort",
           "diff", "nansum", "nanmin", "nanmax", "nanmean", "round", "floor", "ceil", "flip", "roll", "ptp", "squeeze", "ravel", "copy",
-          "sum_axis0", "mean_axis1k", "sum_axis_pos", "amax_axis0", "cumsum_axis1", "sort_axis0", "std_axis0"}     \* one Array argument (last ones: keyword forms)
+          "sum_axis0", "mean_axis1k", "sum_axis_pos", "amax_axis0", "cumsum_axis1", "sort_axis0", "std_axis0", "sum_out0", "mean_out0", "amax_out0"}     \* one Array argument (last ones: keyword forms)
 Keep2 == {"add", "subtract", "maximum", "minimum", "hypot", "fmax", "fmin"}                        \* two operands, result in the first one's unit
 KeepSeq == {"concatenate", "stack", "hstack", "vstack"}                                            \* a sequence of Arrays
 Pred1 == {"isfinite", "isnan", "isinf", "logical_not", "signbit"}
